@@ -33,7 +33,8 @@ EXTENDS Integers, Sequences, FiniteSets, TLC
 CONSTANTS
   FullDepth,   \* every tree of depth <= FullDepth is an instance
   MaxDepth,    \* trees of depth FullDepth+1..MaxDepth: all operators over a sample of the level below
-  SampleMod,   \* ... the operand trees with (Hash + 7 Seed) % SampleMod = 0
+  SampleMod,   \* ... the operand trees with (Hash + 7 Seed) % SampleMod = 0 at depth FullDepth+1,
+  SampleModDeep, \* ... % SampleModDeep = 0 at the deeper levels
   Seed,
   NParts,      \* the instances are split over NParts TLC runs
   Part,        \* this run checks the trees with Hash % NParts = Part
@@ -423,7 +424,7 @@ SparseExt(a) ==
   LET ty == Ty(a) IN
   {Un("neg", a, <<>>)}
   \cup {Un(o, a, <<c>>) : o \in FCOps, c \in Consts}
-  \cup (IF ty.kind = "lin" THEN {Un("lrestr", a, q) : q \in RestrPars(ty.n)} ELSE {})
+  \cup (IF ty.kind = "lin" /\ ty.n >= 2 THEN {Un("lrestr", a, q) : q \in RestrPars(ty.n)} ELSE {})
   \cup (IF ty.kind = "lin" /\ ty.norm = "no" THEN {Un("normalize", a, Space(ty.n))} ELSE {})
 
 DenseExt(a) ==
@@ -470,8 +471,10 @@ Hash(t) == (OpIdx(t[1]) * 7919
 
 (* Level d = trees of depth d built over (a sample of) level d-1: every operator and   *)
 (* parameter variant is applied to each picked tree; all trees are picked up to        *)
-(* FullDepth, beyond it those with (Hash + 7 Seed) % SampleMod = 0.                    *)
-Pick(S, d) == IF d <= FullDepth THEN S ELSE {a \in S : (Hash(a) + 7 * Seed) % SampleMod = 0}
+(* FullDepth, beyond it those with (Hash + 7 Seed) % SampleMod (SampleModDeep) = 0.    *)
+Pick(S, d) == IF d <= FullDepth THEN S
+              ELSE LET m == IF d = FullDepth + 1 THEN SampleMod ELSE SampleModDeep IN
+                   {a \in S : (Hash(a) + 7 * Seed) % m = 0}
 RECURSIVE Level(_)
 Level(d) == IF d = 0 THEN Leaves ELSE Ext(Pick(Level(d - 1), d))
 Selected == {t \in UNION {Level(d) : d \in 0..MaxDepth} : (Hash(t) \div 7) % NParts = Part}
